@@ -448,6 +448,15 @@ def replay_state(st: dict, out: dict, want_event: bool, want_rejects: bool = Tru
             res = w.call(c, rel)
             V(["C20"] + (["C11"] if rj["err"] == "OrderLoss" else []) + (["C14"] if rj["err"] == "EngineError" else []),
               "a request that must be refused returned a relation", request=c, expected=sorted(expected), returned=str(res))
+            # whatever the factories accept must compile and execute (C08): a request the specification
+            # refuses but the code accepts is judged on that as well
+            if isinstance(getattr(res, "engine", None), type(w.sql)):
+                try:
+                    run_sql(w.sql, res, False)
+                except Exception as exc2:  # noqa: BLE001
+                    if not ('near "(": syntax error' in str(exc2) and nested_compound(project.tree(res))):
+                        V(["C08"], f"a request accepted at construction (the specification refuses it: {rj['err']}) fails later with "
+                                   f"{type(exc2).__name__}: {str(exc2)[:160]}", request=c)
         except Exception as exc:  # noqa: BLE001
             if type(exc).__name__ not in expected:
                 V(["C20"] + (["C11"] if rj["err"] == "OrderLoss" else []),
@@ -567,8 +576,8 @@ def worker(lines, ctx):
 CLAUSE_PROPS = {"wf": ["C14"], "den": ["C02"], "denbag": ["C02", "C17"], "denlist": ["C11"], "meta": ["C06"], "coh": ["C17"]}
 
 CONFIGS = {
-    "quick": [("SqlQuick.cfg", 6), ("SqlFocusQ.cfg", 4), ("SqlChainQ.cfg", 4), ("SqlJoinQ.cfg", 4)],
-    "thorough": [("SqlQuick.cfg", 2), ("SqlJoinQ.cfg", 2), ("SqlFocus.cfg", 4), ("SqlChain.cfg", 4), ("SqlGeneral.cfg", 8)],
+    "quick": [("SqlQuick.cfg", 6), ("SqlFocusQ.cfg", 4), ("SqlChainQ.cfg", 4), ("SqlJoinQ.cfg", 4), ("SqlSortSliceQ.cfg", 4)],
+    "thorough": [("SqlQuick.cfg", 2), ("SqlJoinQ.cfg", 2), ("SqlSortSliceQ.cfg", 1), ("SqlFocus.cfg", 4), ("SqlChain.cfg", 4), ("SqlGeneral.cfg", 8)],
     # thorough plan for the properties this family serves in second place
     "thorough-lite": [("SqlQuick.cfg", 1), ("SqlJoinQ.cfg", 1), ("SqlChain.cfg", 2)],
 }
@@ -591,7 +600,7 @@ def run(tier: str, seed: int) -> list[Part]:
         focus = os.environ.get("VERIF_FOCUS", "")
         quick = tier == "quick"
         ctx = {"event_every": every * (2 if quick and focus in ("C16", "C20") else 1),
-               "rejects_every": (4 if focus in ("C20", "C11") else 12) if quick else 1,
+               "rejects_every": (4 if focus in ("C20", "C11", "C08") else 12) if quick else 1,
                # the raw-tree conform pass bears on C17 (and on C02/C08 through its rows)
                "raw_every": (2 if focus == "C17" else 6 if focus in ("C02", "C08") else 10**9) if quick else 1}
         outs = parallel_replay(worker, res.raw_lines(), ctx=ctx, chunk=200)
